@@ -196,6 +196,15 @@ func ApplyEdit(root string, ed Edit) error {
 	case "blank":
 		i := strings.Index(s, "\n")
 		s = s[:i+1] + strings.Repeat("\n", 1+ed.N%3) + s[i+1:]
+	case "freecomment":
+		// A free-standing comment block right below the package clause: shifts
+		// every line number without touching any declaration or doc comment.
+		i := strings.Index(s, "\npackage ")
+		if strings.HasPrefix(s, "package ") {
+			i = -1
+		}
+		j := strings.Index(s[i+1:], "\n") + i + 1
+		s = s[:j+1] + fmt.Sprintf("\n// free-standing comment %d\n// (line shift only)\n", ed.N) + s[j+1:]
 	case "exported":
 		s += fmt.Sprintf("\nfunc VerifExported%d() int { return %d }\n", ed.N, ed.N)
 	case "newfile":
